@@ -1,18 +1,36 @@
 Extract/C04x.vo Extract/C04x.glob Extract/C04x.v.beautified Extract/C04x.required_vo: Extract/C04x.v Model/Fb.vo Spec/C04.vo Spec/C04Judge.vo
 Extract/C04x.vio: Extract/C04x.v Model/Fb.vio Spec/C04.vio Spec/C04Judge.vio
 Extract/C04x.vos Extract/C04x.vok Extract/C04x.required_vos: Extract/C04x.v Model/Fb.vos Spec/C04.vos Spec/C04Judge.vos
+Extract/C06x.vo Extract/C06x.glob Extract/C06x.v.beautified Extract/C06x.required_vo: Extract/C06x.v Model/Sched.vo Spec/C06Judge.vo
+Extract/C06x.vio: Extract/C06x.v Model/Sched.vio Spec/C06Judge.vio
+Extract/C06x.vos Extract/C06x.vok Extract/C06x.required_vos: Extract/C06x.v Model/Sched.vos Spec/C06Judge.vos
 Model/Fb.vo Model/Fb.glob Model/Fb.v.beautified Model/Fb.required_vo: Model/Fb.v 
 Model/Fb.vio: Model/Fb.v 
 Model/Fb.vos Model/Fb.vok Model/Fb.required_vos: Model/Fb.v 
+Model/Sched.vo Model/Sched.glob Model/Sched.v.beautified Model/Sched.required_vo: Model/Sched.v 
+Model/Sched.vio: Model/Sched.v 
+Model/Sched.vos Model/Sched.vok Model/Sched.required_vos: Model/Sched.v 
 Proofs/C04Proofs.vo Proofs/C04Proofs.glob Proofs/C04Proofs.v.beautified Proofs/C04Proofs.required_vo: Proofs/C04Proofs.v Model/Fb.vo Spec/C04.vo
 Proofs/C04Proofs.vio: Proofs/C04Proofs.v Model/Fb.vio Spec/C04.vio
 Proofs/C04Proofs.vos Proofs/C04Proofs.vok Proofs/C04Proofs.required_vos: Proofs/C04Proofs.v Model/Fb.vos Spec/C04.vos
+Proofs/C06Proofs.vo Proofs/C06Proofs.glob Proofs/C06Proofs.v.beautified Proofs/C06Proofs.required_vo: Proofs/C06Proofs.v Model/Sched.vo Spec/C06.vo
+Proofs/C06Proofs.vio: Proofs/C06Proofs.v Model/Sched.vio Spec/C06.vio
+Proofs/C06Proofs.vos Proofs/C06Proofs.vok Proofs/C06Proofs.required_vos: Proofs/C06Proofs.v Model/Sched.vos Spec/C06.vos
 Properties/C04.vo Properties/C04.glob Properties/C04.v.beautified Properties/C04.required_vo: Properties/C04.v Model/Fb.vo Spec/C04.vo Proofs/C04Proofs.vo
 Properties/C04.vio: Properties/C04.v Model/Fb.vio Spec/C04.vio Proofs/C04Proofs.vio
 Properties/C04.vos Properties/C04.vok Properties/C04.required_vos: Properties/C04.v Model/Fb.vos Spec/C04.vos Proofs/C04Proofs.vos
+Properties/C06.vo Properties/C06.glob Properties/C06.v.beautified Properties/C06.required_vo: Properties/C06.v Model/Sched.vo Spec/C06.vo Proofs/C06Proofs.vo
+Properties/C06.vio: Properties/C06.v Model/Sched.vio Spec/C06.vio Proofs/C06Proofs.vio
+Properties/C06.vos Properties/C06.vok Properties/C06.required_vos: Properties/C06.v Model/Sched.vos Spec/C06.vos Proofs/C06Proofs.vos
 Spec/C04.vo Spec/C04.glob Spec/C04.v.beautified Spec/C04.required_vo: Spec/C04.v 
 Spec/C04.vio: Spec/C04.v 
 Spec/C04.vos Spec/C04.vok Spec/C04.required_vos: Spec/C04.v 
 Spec/C04Judge.vo Spec/C04Judge.glob Spec/C04Judge.v.beautified Spec/C04Judge.required_vo: Spec/C04Judge.v Spec/C04.vo
 Spec/C04Judge.vio: Spec/C04Judge.v Spec/C04.vio
 Spec/C04Judge.vos Spec/C04Judge.vok Spec/C04Judge.required_vos: Spec/C04Judge.v Spec/C04.vos
+Spec/C06.vo Spec/C06.glob Spec/C06.v.beautified Spec/C06.required_vo: Spec/C06.v 
+Spec/C06.vio: Spec/C06.v 
+Spec/C06.vos Spec/C06.vok Spec/C06.required_vos: Spec/C06.v 
+Spec/C06Judge.vo Spec/C06Judge.glob Spec/C06Judge.v.beautified Spec/C06Judge.required_vo: Spec/C06Judge.v 
+Spec/C06Judge.vio: Spec/C06Judge.v 
+Spec/C06Judge.vos Spec/C06Judge.vok Spec/C06Judge.required_vos: Spec/C06Judge.v 
